@@ -647,7 +647,7 @@ fn arb_reason() -> impl Strategy<Value = String> {
     .prop_map(|o| o.unwrap_or_else(|| "\u{1}".to_string()))
 }
 
-fn arb_resp() -> impl Strategy<Value = RespSpec> {
+pub fn arb_resp() -> impl Strategy<Value = RespSpec> {
     (
         any::<u16>(),
         arb_reason(),
